@@ -18,8 +18,9 @@ const (
 type ConfWatcher struct {
 	FilePath string
 
-	inner        *fsnotify.Watcher
-	absolutePath string
+	inner               *fsnotify.Watcher
+	absolutePath        string
+	previousWatchedPath string
 
 	// in
 	terminate chan struct{}
@@ -51,6 +52,10 @@ func (w *ConfWatcher) Initialize() error {
 		return err
 	}
 
+	// resolve the watched path here, not in run(),
+	// in order to detect changes that happen before run() is scheduled
+	w.previousWatchedPath, _ = filepath.EvalSymlinks(w.absolutePath)
+
 	w.terminate = make(chan struct{})
 	w.signal = make(chan struct{})
 	w.done = make(chan struct{})
@@ -70,7 +75,7 @@ func (w *ConfWatcher) run() {
 	defer close(w.done)
 
 	var lastCalled time.Time
-	previousWatchedPath, _ := filepath.EvalSymlinks(w.absolutePath)
+	previousWatchedPath := w.previousWatchedPath
 
 	// events that arrive less than minInterval after the last signal
 	// are not dropped, they are processed when the interval has elapsed.
